@@ -9,6 +9,17 @@
 //   (c) with the fault cleared, init(v); compute(args) on the SAME object is bitwise equal (return value, info, counters,
 //       eigenvalues, eigenvectors) to the baseline; also for PAIRS of faults (second fault during the recovery run);
 //   (d) no sanitizer report (ASan/UBSan abort = harness failure).
+// Fault KIND dimension (the property says "the exception", not "the std::exception"): the failing application throws
+//   std_exception       Fault14 : UserFault : std::exception                       (serial number, copy counter)
+//   raw_struct          RawFault14 { k, serial, tag }, NOT derived from std::exception  (serial number, copy counter)
+//   int                 `throw int`                                                 (value = fault index)
+//   cstring             `throw const char*`                                         (pointer identity + text)
+//   runtime_error_rich  RichFault14 : std::runtime_error with extra data            (serial, copy counter, tag[4], what() text:
+//                       a handler that re-throws by value, `throw e;`, slices it to the handler's declared type)
+// and for EVERY kind the same predicates (a)-(d) are judged; a std base-class object leaving the call instead of the user's
+// object is reported as `exception-sliced`.  thorough: kinds x indices exhaustively, on the warm and on the fresh object;
+// quick: per fault index one kind on the warm object and another one on the fresh object (rotating with the index, so any two
+// consecutive indices see four different kinds, at least two of them not derived from std::exception).
 // Model tie (symmetric family): the fresh-object history (faults, then clean run) is sent as a `hermf` request to Driver/C14.lean.
 // Model tie (general family): the same history on GenEigsSolver / GenEigsRealShiftSolver is sent as a `genf` request
 // (FaultOpGen.genKernF: outcome of every faulted call, num_operations() at the throw, then the recovery run bit for bit).
@@ -42,6 +53,9 @@ struct Track { bool old; Track() : old(g_track) { g_track = true; } ~Track() { g
 #include <Eigen/SparseCore>
 #include <memory>
 #include <typeinfo>
+#include <cstring>
+#include <cstdio>
+#include <stdexcept>
 using namespace sh;
 typedef std::complex<double> CD;
 typedef Eigen::MatrixXcd CMat;
@@ -60,24 +74,53 @@ struct SpectraVerifAccess {
     }
 };
 
-// ---- the user's exception: serial number and copy counter make "the same object" observable ----
+// ---- the user's exceptions: serial number and copy counter make "the same object" observable ----
+enum { FK_STD = 0, FK_RAW = 1, FK_INT = 2, FK_CSTR = 3, FK_RICH = 4, NFK = 5 };
+static const char* const fk_name[NFK] = {"std_exception", "raw_struct", "int", "cstring", "runtime_error_rich"};
 static long g_fault_serial = 0, g_fault_copies = 0;
 struct Fault14 : public UserFault {
     long serial;
     explicit Fault14(long k_) : UserFault(k_), serial(++g_fault_serial) {}
     Fault14(const Fault14& o) : UserFault(o), serial(o.serial) { g_fault_copies++; }
 };
+static long tag_of(long k, long serial, int j) { return (k + 1) * 7919 + serial * 104729 + j * 31; }
+// a user error type that has nothing to do with <exception>
+struct RawFault14 {
+    long k, serial, tag;
+    explicit RawFault14(long k_) : k(k_), serial(++g_fault_serial), tag(tag_of(k_, serial, 0)) {}
+    RawFault14(const RawFault14& o) : k(o.k), serial(o.serial), tag(o.tag) { g_fault_copies++; }
+    bool data_ok() const { return tag == tag_of(k, serial, 0); }
+};
+static const char* rich_msg(long k) { static char b[64]; std::snprintf(b, sizeof b, "fault14: user operator failed at application %ld", k); return b; }
+// derived from std::runtime_error, carrying more than the base class does: `throw e;` in a handler loses type and data
+struct RichFault14 : public std::runtime_error {
+    long k, serial, tag[4];
+    explicit RichFault14(long k_) : std::runtime_error(rich_msg(k_)), k(k_), serial(++g_fault_serial) { for (int j = 0; j < 4; j++) tag[j] = tag_of(k_, serial, j + 1); }
+    RichFault14(const RichFault14& o) : std::runtime_error(o), k(o.k), serial(o.serial) { for (int j = 0; j < 4; j++) tag[j] = o.tag[j]; g_fault_copies++; }
+    bool data_ok() const { for (int j = 0; j < 4; j++) if (tag[j] != tag_of(k, serial, j + 1)) return false; return std::strcmp(what(), rich_msg(k)) == 0; }
+};
+static char g_cstr[64];
+static const char* cstr_msg(long k) { static char b[64]; std::snprintf(b, sizeof b, "fault14 cstring %ld", k); return b; }
 
 // ---- one log for ALL operator applications (A- and B-operator) of a solver, in call order ----
 struct Log14 {
-    long count = 0, countA = 0; uint64_t hash = 1469598103934665603ull; long throw_at = -1, poison_at = -1; std::vector<uint64_t>* record = nullptr;
+    long count = 0, countA = 0; uint64_t hash = 1469598103934665603ull; long throw_at = -1, poison_at = -1; int fkind = FK_STD; std::vector<uint64_t>* record = nullptr;
     void clear() { count = 0; countA = 0; hash = 1469598103934665603ull; }
+    [[noreturn]] void raise(long k) const {
+        switch (fkind) {
+        case FK_RAW: throw RawFault14(k);
+        case FK_INT: ++g_fault_serial; throw (int) k;
+        case FK_CSTR: ++g_fault_serial; std::snprintf(g_cstr, sizeof g_cstr, "%s", cstr_msg(k)); throw (const char*) g_cstr;
+        case FK_RICH: throw RichFault14(k);
+        default: throw Fault14(k);
+        }
+    }
     void enter(int channel, const double* x, long n) {
         count++; if (channel == 0) countA++;
         hash ^= (uint64_t) (channel + 1); hash *= 1099511628211ull;
         for (long i = 0; i < n; i++) { uint64_t u = dbits(x[i]); for (int b = 0; b < 8; b++) { hash ^= (u >> (8 * b)) & 0xff; hash *= 1099511628211ull; } }
         if (record && record->size() < record->capacity()) record->push_back(hash);
-        if (throw_at >= 0 && count == throw_at) throw Fault14(count);
+        if (throw_at >= 0 && count == throw_at) raise(count);
     }
 };
 
@@ -159,6 +202,7 @@ template <class H> static void run_clean(H& h, Log14& log, Res& r) {
     {   Track t;
         try { h.init(); r.ret = h.compute(); r.napps = log.count; }
         catch (const std::exception& e) { r.threw = true; tn = typeid(e).name(); }
+        catch (...) { r.threw = true; tn = "(not a std::exception)"; }
     }
     if (tn) r.exn = std::string("threw ") + tn;      // (string built outside the tracked region)
     auto& s = h.solver();
@@ -166,49 +210,70 @@ template <class H> static void run_clean(H& h, Log14& log, Res& r) {
     if (!r.threw) { auto ev = s.eigenvalues(); for (long i = 0; i < ev.size(); i++) push(r.ev, ev[i]);
         auto X = s.eigenvectors(); r.rows = X.rows(); r.cols = X.cols(); for (long j = 0; j < X.cols(); j++) for (long i = 0; i < X.rows(); i++) push(r.X, X(i, j)); }
 }
-struct Fo { char stage = '-'; int kind = 0; long payload = -1, serial = -1, made = 0, copies = 0, entered = 0, enteredA = 0, nmatop = -1, niter = -1, dblocks = 0; int info = -1, info0 = -1; bool prefix_ok = true, op_ok = true; const char* tname = ""; };
-template <class H> static Fo faulted(H& h, Log14& log, long k, const std::vector<uint64_t>& prefix) {
-    Fo o; auto& s = h.solver(); o.info0 = (int) s.info();
-    log.clear(); log.throw_at = k; const long ser0 = g_fault_serial, cop0 = g_fault_copies; const long b0 = g_live;
+// outcome of one faulted init(); compute().  caught: -1 = returned normally, 0..4 = an object of that fault kind, 10 = some other
+// std::exception, 11 = something else; dyn_ok: dynamic type is exactly the user's class; data_ok: payload beyond the index intact
+struct Fo { char stage = '-'; int thrown = 0, caught = -1; long payload = -1, serial = -1, made = 0, copies = 0, entered = 0, enteredA = 0, nmatop = -1, niter = -1, dblocks = 0; int info = -1, info0 = -1;
+    bool prefix_ok = true, op_ok = true, dyn_ok = true, data_ok = true, stale = false, sliced = false; const char* tname = "";
+    bool user() const { return caught == thrown; } };
+template <class H> static Fo faulted(H& h, Log14& log, long k, int fkind, const std::vector<uint64_t>& prefix, bool repair = true) {
+    Fo o; auto& s = h.solver(); o.info0 = (int) s.info(); o.thrown = fkind;
+    log.clear(); log.throw_at = k; log.fkind = fkind; const long ser0 = g_fault_serial, cop0 = g_fault_copies; const long b0 = g_live;
     {   Track t;
         try { o.stage = 'I'; h.init(); o.stage = 'C'; h.compute(); o.stage = 'N'; }
-        catch (const Fault14& f) { o.kind = 1; o.payload = f.k; o.serial = f.serial; }
-        catch (const std::exception& e) { o.kind = 2; o.tname = typeid(e).name(); }
-        catch (...) { o.kind = 3; }
+        catch (const Fault14& f) { o.caught = FK_STD; o.payload = f.k; o.serial = f.serial; o.dyn_ok = typeid(f) == typeid(Fault14); o.data_ok = std::strcmp(f.what(), "user operator fault") == 0; }
+        catch (const RichFault14& f) { o.caught = FK_RICH; o.payload = f.k; o.serial = f.serial; o.dyn_ok = typeid(f) == typeid(RichFault14); o.data_ok = f.data_ok(); }
+        catch (const std::exception& e) { o.caught = 10; o.tname = typeid(e).name();
+            // an object of a BASE class of the user's exception: what `throw e;` in a `catch (const Base& e)` handler produces
+            o.sliced = (fkind == FK_STD && (typeid(e) == typeid(UserFault) || typeid(e) == typeid(std::exception))) ||
+                       (fkind == FK_RICH && (typeid(e) == typeid(std::runtime_error) || typeid(e) == typeid(std::exception))); }
+        catch (const RawFault14& f) { o.caught = FK_RAW; o.payload = f.k; o.serial = f.serial; o.data_ok = f.data_ok(); }
+        catch (int v) { o.caught = FK_INT; o.payload = v; o.serial = g_fault_serial; }
+        catch (const char* p) { o.caught = FK_CSTR; o.serial = g_fault_serial; o.dyn_ok = p == g_cstr; o.payload = o.dyn_ok ? k : -2; o.data_ok = o.dyn_ok && std::strcmp(p, cstr_msg(k)) == 0; }
+        catch (...) { o.caught = 11; }
     }
-    o.dblocks = g_live - b0; log.throw_at = -1; o.made = g_fault_serial - ser0; o.copies = g_fault_copies - cop0; o.entered = log.count; o.enteredA = log.countA;
-    if (o.kind == 1 && o.serial != g_fault_serial) o.kind = 4;
+    o.dblocks = g_live - b0; log.throw_at = -1; log.fkind = FK_STD; o.made = g_fault_serial - ser0; o.copies = g_fault_copies - cop0; o.entered = log.count; o.enteredA = log.countA;
+    if (o.caught >= 0 && o.caught < NFK && o.serial != g_fault_serial) o.stale = true;
     o.info = (int) s.info(); o.niter = (long) s.num_iterations(); o.nmatop = (long) s.num_operations();
-    if (!h.op_state_ok()) { o.op_ok = false; h.op_repair(); }     // reported; then repaired as a user would have to, so that the remaining clauses stay testable
+    // reported; then (unless the caller wants to see the consequence in the recovery run) repaired as a user would have to, so that the remaining clauses stay testable
+    if (!h.op_state_ok()) { o.op_ok = false; if (repair) h.op_repair(); }
     o.prefix_ok = log.count >= 1 && log.count <= (long) prefix.size() && log.hash == prefix[log.count - 1];
     return o;
 }
 
 struct Ctx { Out* out; uint64_t seed; long caseno; std::string cls; std::string desc; const Params* P; bool thorough; };
-static std::string rj(const Ctx& c, long k, long k2, const char* obj) {
+static std::string rj(const Ctx& c, long k, long k2, const char* obj, const char* fk = "std_exception", const char* fk2 = "") {
     const Params& P = *c.P;
-    return "{\"harness\":\"c14\",\"seed\":" + str(c.seed) + ",\"case\":" + str(c.caseno) + ",\"class\":\"" + c.cls + "\",\"n\":" + str(P.n) + ",\"nev\":" + str(P.nev) + ",\"ncv\":" + str(P.ncv) +
-        ",\"sel\":" + str(P.sel) + ",\"sort\":" + str(P.sort) + ",\"maxit\":" + str(P.maxit) + ",\"tol\":" + str(P.tol) + ",\"fault_at\":" + str(k) + ",\"second_fault_at\":" + str(k2) + ",\"object\":\"" + obj + "\",\"desc\":\"" + jesc(c.desc) + "\"}";
+    return "{\"harness\":\"c14\",\"seed\":" + str(c.seed) + ",\"tier\":\"" + (c.thorough ? "thorough" : "quick") + "\",\"case\":" + str(c.caseno) + ",\"class\":\"" + c.cls + "\",\"n\":" + str(P.n) + ",\"nev\":" + str(P.nev) + ",\"ncv\":" + str(P.ncv) +
+        ",\"sel\":" + str(P.sel) + ",\"sort\":" + str(P.sort) + ",\"maxit\":" + str(P.maxit) + ",\"tol\":" + str(P.tol) + ",\"fault_kind\":\"" + fk + "\",\"fault_at\":" + str(k) +
+        ",\"second_fault_at\":" + str(k2) + (k2 > 0 ? std::string(",\"second_fault_kind\":\"") + fk2 + "\"" : std::string("")) + ",\"object\":\"" + obj + "\",\"desc\":\"" + jesc(c.desc) + "\"}";
 }
-// judge one faulted call; returns false if the call did not end with the user's exception
-static bool judge(Ctx& c, const Fo& o, long k, long k1, long k2, const char* obj, bool warm) {
-    Out& out = *c.out; out.count("oracle_fault"); out.count(std::string("stage_") + o.stage);
-    const std::string where = c.cls + ": fault at application " + str(k) + (o.stage == 'I' ? " (inside init())" : " (inside compute())");
-    if (o.kind == 0) { out.fail("exception-swallowed", where + ": init(); compute() returned normally, the user's exception was swallowed (operator entered " + str(o.entered) + " times)", rj(c, k1, k2, obj)); return false; }
-    if (o.kind == 2 || o.kind == 3) { out.fail("exception-replaced", where + ": a different exception left the call (" + std::string(o.kind == 2 ? o.tname : "non-std") + ")", rj(c, k1, k2, obj)); return false; }
-    if (o.kind == 4 || o.payload != k || o.made != 1 || o.copies != 0) out.fail("exception-identity", where + ": the exception caught is not the object thrown (payload " + str(o.payload) + ", thrown " + str(o.made) + " time(s), copied " + str(o.copies) + " time(s))", rj(c, k1, k2, obj));
-    if (o.entered != k) out.fail("application-after-fault", where + ": the operator was applied " + str(o.entered - k) + " more time(s) after the failing application", rj(c, k1, k2, obj));
-    if (!o.prefix_ok) out.fail("oplog-not-prefix", where + ": the vectors handed to the operator up to the fault are not those of the fault-free run", rj(c, k1, k2, obj));
-    if (!o.op_ok) out.fail("operator-state-after-fault", where + ": the user's operator object is left in a modified state (the shift installed at construction has been replaced by the solver's probing shift and is not restored when the exception passes through)", rj(c, k1, k2, obj));
-    if (o.info != o.info0) out.fail("fault-changes-info", where + ": info() changed from " + str(o.info0) + " to " + str(o.info), rj(c, k1, k2, obj));
-    if (o.niter != 0) out.fail("fault-niter", where + ": num_iterations() = " + str(o.niter) + " after the interrupted call (init() sets it to 0, compute() updates it only on return)", rj(c, k1, k2, obj));
-    if (o.nmatop < 0 || o.nmatop > o.enteredA) out.fail("fault-opcount", where + ": num_operations() = " + str(o.nmatop) + " but only " + str(o.enteredA) + " A-operator applications were started", rj(c, k1, k2, obj));
-    if (warm && o.dblocks != 0) out.fail("leak-after-unwind", where + ": " + str(o.dblocks) + " heap block(s) more are live after the exception left the call than before the call (already used solver object)", rj(c, k1, k2, obj));
+// judge one faulted call (fault kind o.thrown at application k; the history is: kind fk1 at k1, then kind fk2 at k2); returns false if the call did not end with the user's exception
+static bool judge(Ctx& c, const Fo& o, long k, long k1, int fk1, long k2, int fk2, const char* obj, bool warm) {
+    Out& out = *c.out; out.count("oracle_fault"); out.count(std::string("stage_") + o.stage); out.count(std::string("kind_") + fk_name[o.thrown]);
+    const std::string J = rj(c, k1, k2, obj, fk_name[fk1], fk_name[fk2]);
+    const std::string where = c.cls + ": fault (" + fk_name[o.thrown] + ") at application " + str(k) + (o.stage == 'I' ? " (inside init())" : " (inside compute())");
+    if (o.stage == 'C' && (o.thrown == FK_RAW || o.thrown == FK_INT || o.thrown == FK_CSTR)) out.count("nonstd_fault_inside_compute");
+    // the operator's state is judged whatever left the call (it is what the next init(); compute() runs with)
+    if (!o.op_ok) out.fail("operator-state-after-fault", where + ": the user's operator object is left in a modified state (the shift installed at construction has been replaced by the solver's probing shift and is not restored when the exception passes through)", J);
+    if (o.caught < 0) { out.fail("exception-swallowed", where + ": init(); compute() returned normally, the user's exception was swallowed (operator entered " + str(o.entered) + " times)", J); return false; }
+    if (!o.user()) {
+        const std::string got = o.caught == 10 ? std::string(o.tname) : o.caught == 11 ? std::string("not a std::exception") : std::string(fk_name[o.caught]);
+        if (o.sliced) out.fail("exception-sliced", where + ": the object that left the call is a " + got + ", a base-class COPY of the user's exception: dynamic type and payload are lost (re-thrown by value, `throw e;`, instead of `throw;`)", J);
+        else out.fail("exception-replaced", where + ": a different exception left the call (" + got + ")", J);
+        return false; }
+    if (o.stale || o.payload != k || o.made != 1 || o.copies != 0 || !o.dyn_ok || !o.data_ok)
+        out.fail("exception-identity", where + ": the exception caught is not the object thrown (payload " + str(o.payload) + ", thrown " + str(o.made) + " time(s), copied " + str(o.copies) + " time(s), dynamic type " + (o.dyn_ok ? "kept" : "changed") + ", extra data " + (o.data_ok ? "intact" : "damaged") + ")", J);
+    if (o.entered != k) out.fail("application-after-fault", where + ": the operator was applied " + str(o.entered - k) + " more time(s) after the failing application", J);
+    if (!o.prefix_ok) out.fail("oplog-not-prefix", where + ": the vectors handed to the operator up to the fault are not those of the fault-free run", J);
+    if (o.info != o.info0) out.fail("fault-changes-info", where + ": info() changed from " + str(o.info0) + " to " + str(o.info), J);
+    if (o.niter != 0) out.fail("fault-niter", where + ": num_iterations() = " + str(o.niter) + " after the interrupted call (init() sets it to 0, compute() updates it only on return)", J);
+    if (o.nmatop < 0 || o.nmatop > o.enteredA) out.fail("fault-opcount", where + ": num_operations() = " + str(o.nmatop) + " but only " + str(o.enteredA) + " A-operator applications were started", J);
+    if (warm && o.dblocks != 0) out.fail("leak-after-unwind", where + ": " + str(o.dblocks) + " heap block(s) more are live after the exception left the call than before the call (already used solver object)", J);
     return true;
 }
 static std::string fo_resp(const Fo& o) {
-    if (o.kind == 0) return " | ok nmatop=2 | ret=? (not hit)";
-    std::string ex = o.kind == 1 || o.kind == 4 ? "user:" + str(o.payload) : std::string("other");
+    if (o.caught < 0) return " | ok nmatop=2 | ret=? (not hit)";
+    std::string ex = o.user() ? "user:" + str(o.payload) : std::string("other");
     if (o.stage == 'I') return " | throw " + ex + " nmatop=" + str(o.nmatop);
     return " | ok nmatop=2 | throw " + ex + " info=" + str(o.info) + " niter=" + str(o.niter) + " nmatop=" + str(o.nmatop);
 }
@@ -229,28 +294,41 @@ template <class Make, class Resp> static void sweep(Ctx& c, Log14& log, Make mak
     run_clean(*W, log, R1);
     if (!(R1 == R0)) out.fail("baseline-not-reproducible", c.cls + ": a second init(); compute() on the same object differs from the first in " + diff(R1, R0), rj(c, 0, 0, "warm"));
     for (long k = 1; k <= K; k++) {
-        { std::ofstream lc(out.dir + "/lastcase.txt"); lc << "c14 case " << c.caseno << " seed " << c.seed << " class " << c.cls << " fault_at " << k << "\n"; }
         const bool pair = c.thorough ? (k % 2 == 0) : (k % 4 == 0); const long k2 = pair ? 1 + (long) r.below((uint64_t) K) : 0;
-        // (1) already used object
-        Fo f1 = faulted(*W, log, k, prefix); judge(c, f1, k, k, k2, "warm", true);
-        if (pair) { Fo f2 = faulted(*W, log, k2, prefix); judge(c, f2, k2, k, k2, "warm", true); out.count("oracle_pair"); }
-        run_clean(*W, log, Rk);
-        if (!(Rk == R0)) out.fail("recovery-differs", c.cls + ": after a fault at application " + str(k) + (pair ? " and a second one at " + str(k2) + " of the recovery run" : std::string("")) + ", init(); compute() on the same (already used) object differs from the fault-free baseline in " + diff(Rk, R0), rj(c, k, k2, "warm"));
-        out.count("oracle_recovery");
-        // (2) fresh object, destroyed afterwards: nothing may stay allocated
-        const long L0 = g_live; std::string resp; Res Rf;
-        {   HP F;
-            { Track t; F = make(); }
-            Fo g1 = faulted(*F, log, k, prefix); judge(c, g1, k, k, k2, "fresh", false); resp += fo_resp(g1);
-            if (pair) { Fo g2 = faulted(*F, log, k2, prefix); judge(c, g2, k2, k, k2, "fresh", false); resp += fo_resp(g2); }
-            run_clean(*F, log, Rf);
-            if (!(Rf == R0)) out.fail("recovery-differs", c.cls + ": after a fault at application " + str(k) + (pair ? " and a second one at " + str(k2) + " of the recovery run" : std::string("")) + ", init(); compute() on the same (fresh) object differs from the fault-free baseline in " + diff(Rf, R0), rj(c, k, k2, "fresh"));
+        // fault kinds: thorough = all kinds on both objects; quick = one kind per object, rotating with the index (kinds k+c and k+c+2 mod 5:
+        // two consecutive indices cover four kinds).  The second fault of a pair is of the NEXT kind (histories mix kinds).
+        const int rot = (int) ((k + c.caseno) % NFK); const int nk = c.thorough ? NFK : 1;
+        std::string resp0;
+        for (int q = 0; q < nk; q++) {
+            const int fw = (rot + q) % NFK, fw2 = (fw + 1) % NFK;          // warm object
+            const int ff = (rot + 2 + q) % NFK, ff2 = (ff + 1) % NFK;      // fresh object
+            { std::ofstream lc(out.dir + "/lastcase.txt"); lc << "c14 case " << c.caseno << " seed " << c.seed << " tier " << (c.thorough ? "thorough" : "quick") << " class " << c.cls << " n " << P.n << " nev " << P.nev << " ncv " << P.ncv << " fault_at " << k << " second_fault_at " << k2
+                << " fault kinds: warm object " << fk_name[fw] << (pair ? std::string(" then ") + fk_name[fw2] : std::string("")) << ", fresh object " << fk_name[ff] << (pair ? std::string(" then ") + fk_name[ff2] : std::string("")) << "\n"; }
+            // (1) already used object
+            Fo f1 = faulted(*W, log, k, fw, prefix); judge(c, f1, k, k, fw, k2, fw2, "warm", true);
+            if (pair) { Fo f2 = faulted(*W, log, k2, fw2, prefix); judge(c, f2, k2, k, fw, k2, fw2, "warm", true); out.count("oracle_pair"); }
+            run_clean(*W, log, Rk);
+            if (!(Rk == R0)) out.fail("recovery-differs", c.cls + ": after a fault (" + fk_name[fw] + ") at application " + str(k) + (pair ? " and a second one (" + std::string(fk_name[fw2]) + ") at " + str(k2) + " of the recovery run" : std::string("")) + ", init(); compute() on the same (already used) object differs from the fault-free baseline in " + diff(Rk, R0), rj(c, k, k2, "warm", fk_name[fw], fk_name[fw2]));
             out.count("oracle_recovery");
-            if (hdr) resp += clean_resp(*F, Rf);
-            { Track t; F.reset(); }
+            // (2) fresh object, destroyed afterwards: nothing may stay allocated.  Without a second fault the operator is NOT repaired
+            //     by the harness: a damaged operator shows in the recovery run, as it would for the user
+            const long L0 = g_live; std::string resp; Res Rf;
+            {   HP F;
+                { Track t; F = make(); }
+                Fo g1 = faulted(*F, log, k, ff, prefix, pair); judge(c, g1, k, k, ff, k2, ff2, "fresh", false); resp += fo_resp(g1);
+                if (pair) { Fo g2 = faulted(*F, log, k2, ff2, prefix); judge(c, g2, k2, k, ff, k2, ff2, "fresh", false); resp += fo_resp(g2); }
+                run_clean(*F, log, Rf);
+                if (!(Rf == R0)) out.fail("recovery-differs", c.cls + ": after a fault (" + fk_name[ff] + ") at application " + str(k) + (pair ? " and a second one (" + std::string(fk_name[ff2]) + ") at " + str(k2) + " of the recovery run" : std::string("")) + ", init(); compute() on the same (fresh) object differs from the fault-free baseline in " + diff(Rf, R0), rj(c, k, k2, "fresh", fk_name[ff], fk_name[ff2]));
+                out.count("oracle_recovery");
+                if (hdr) resp += clean_resp(*F, Rf);
+                { Track t; F.reset(); }
+            }
+            if (g_live != L0) out.fail("leak-after-destroy", c.cls + ": " + str(g_live - L0) + " heap block(s) still live after fault (" + fk_name[ff] + ") at application " + str(k) + ", recovery and destruction of the solver", rj(c, k, k2, "fresh", fk_name[ff], fk_name[ff2]));
+            // the model knows one exception `Exn.user k`: the history must not depend on the C++ type of the user's exception
+            if (q == 0) resp0 = resp;
+            else { out.count("kind_independence_checked"); if (resp != resp0) out.fail("history-depends-on-fault-kind", c.cls + ": the fault history (outcomes, counters at the throw, recovery run) with fault kind " + fk_name[ff] + " at application " + str(k) + " differs from the one with fault kind " + fk_name[(rot + 2) % NFK], rj(c, k, k2, "fresh", fk_name[ff], fk_name[ff2])); }
         }
-        if (g_live != L0) out.fail("leak-after-destroy", c.cls + ": " + str(g_live - L0) + " heap block(s) still live after fault at application " + str(k) + ", recovery and destruction of the solver", rj(c, k, k2, "fresh"));
-        if (hdr) { out.corr(*hdr + (pair ? " 2 " + str(k) + " " + str(k2) : " 1 " + str(k)), resp.size() > 3 ? resp.substr(3) : resp); out.count(hdr->compare(0, 4, "genf") == 0 ? "tied_genf" : "tied_hermf"); }
+        if (hdr) { out.corr(*hdr + (pair ? " 2 " + str(k) + " " + str(k2) : " 1 " + str(k)), resp0.size() > 3 ? resp0.substr(3) : resp0); out.count(hdr->compare(0, 4, "genf") == 0 ? "tied_genf" : "tied_hermf"); }
     }
     if (hdr) {   // the fault-free history itself
         HP F; { Track t; F = make(); } Res Rf; run_clean(*F, log, Rf);
@@ -267,7 +345,7 @@ template <class Make> static void poison_sweep(Ctx& c, Log14& log, Make make) {
     Res R0, Rk; run_clean(*W, log, R0); const long K = log.countA;
     if (R0.threw || K > kmax) { out.count(R0.threw ? "poison_baseline_throws" : "poison_baseline_too_long"); Track t; W.reset(); return; }
     out.count("oracle_poison_baseline");
-    auto rjp = [&](long k, const char* obj) { std::string s = rj(c, k, 0, obj); s.insert(s.size() - 1, ",\"fault_kind\":\"poison\""); return s; };
+    auto rjp = [&](long k, const char* obj) { return rj(c, k, 0, obj, "poison"); };
     // one poisoned init(); compute(): kind 1 = std::runtime_error left the call, 0 = returned normally, 2 = other std exception, 3 = other
     auto poisoned = [&](decltype(*W)& h, long k, long& dblocks, char& stage, int& info0, int& info1, long& niter, long& nmatop, long& enteredA, const char*& tn) {
         auto& s = h.solver(); info0 = (int) s.info(); int kind = 0; tn = "";
@@ -370,9 +448,15 @@ int main(int argc, char** argv) {
     if (!__sanitizer_install_malloc_and_free_hooks(c14_malloc_hook, c14_free_hook)) { std::fprintf(stderr, "c14: cannot install allocator hooks\n"); return 3; }
 #endif
     out.count(g_hooks ? "heap_counter_asan_hooks" : "heap_counter_operator_new_only");
-    const bool thorough = args.thorough();
+    bool thorough = args.thorough();
+    // --replay FILE: re-run only the case named in the replay (same seed; the tier recorded there decides the size ranges)
+    long only_case = -1;
+    if (!args.replay.empty()) { std::ifstream rf(args.replay); std::stringstream ss; ss << rf.rdbuf(); const std::string t = ss.str();
+        size_t p = t.find("\"case\":"); if (p != std::string::npos) only_case = std::strtol(t.c_str() + p + 7, nullptr, 10);
+        p = t.find("\"tier\":"); if (p != std::string::npos) thorough = t.compare(t.find('"', p + 7) == std::string::npos ? 0 : t.find('"', p + 7), 9, "\"thorough") == 0; }
     const int ncases = thorough ? 600 : 120;
     for (int cs = 0; cs < ncases; cs++) {
+        if (only_case >= 0 && cs != only_case) continue;
         Rng r(args.seed, 14, cs);
         const int cls = cs % 12; const bool gen = (cls >= 3 && cls <= 5);
         Params P; P.n = r.range(gen ? 5 : 4, thorough ? 12 : 8); P.nev = r.range(1, gen ? 2 : 3); if (P.nev > P.n - (gen ? 2 : 1)) P.nev = P.n - (gen ? 2 : 1);
